@@ -12,20 +12,20 @@ Open Scope string_scope. Open Scope list_scope. Open Scope nat_scope.
    before or after taking effect): the repository after load_git is the repository before it EXACTLY WHEN the
    placement is benign, i.e. neither
      - `worktree add` took effect and then reported failure / was interrupted (gap_add_after, finding C20-F2), nor
-     - a cleanup call itself failed: `worktree remove` or `branch -D` did not take effect, or one of the three
-       cleanup calls raised before `branch -D` had run (excluded_cleanup_fault: no implementation can restore then).
-   Hypotheses: wf (every checked-out branch exists), p is a fresh temp-dir name, and the user's repository has no
-   prunable registration of its own (no_prunable: otherwise finding C20-F3). *)
+     - a cleanup call itself failed: `worktree remove` or `branch -D` did not take effect, or `worktree remove`
+       raised so that `branch -D` never ran (excluded_cleanup_fault: no implementation can restore then).
+   Hypotheses: wf (every checked-out branch exists) and p is a fresh temp-dir name. The former hypothesis
+   no_prunable is gone with the repair of finding C20-F3 (tmp_worktree no longer calls `git worktree prune`). *)
 Theorem C20_state_restored_iff :
   forall s p ref tree evs isrepo F,
-  wf s = true -> fresh p s = true -> no_prunable s = true ->
+  wf s = true -> fresh p s = true ->
   (fst (load_git true isrepo F p ref tree evs s) = s <-> benign isrepo s ref F = true).
 Proof. exact load_git_restored_iff. Qed.
 Print Assumptions C20_state_restored_iff.
 
 Theorem C20_state_restored_modulo_known :
   forall s p ref tree evs isrepo F,
-  wf s = true -> fresh p s = true -> no_prunable s = true -> benign isrepo s ref F = true ->
+  wf s = true -> fresh p s = true -> benign isrepo s ref F = true ->
   fst (load_git true isrepo F p ref tree evs s) = s.
 Proof. exact load_git_state_restored. Qed.
 Print Assumptions C20_state_restored_modulo_known.
@@ -49,7 +49,7 @@ Print Assumptions C20_main_worktree_untouched.
 (* check(): two loads; same conclusion. *)
 Theorem C20_check_state_restored :
   forall s a tree breaking isrepo,
-  wf s = true -> no_prunable s = true -> fresh (c_p1 a) s = true -> fresh (c_p2 a) s = true ->
+  wf s = true -> fresh (c_p1 a) s = true -> fresh (c_p2 a) s = true ->
   check_benign isrepo s a = true ->
   fst (check true isrepo a tree breaking s) = s.
 Proof. exact check_state_restored. Qed.
@@ -78,7 +78,7 @@ Print Assumptions C20_check_zero_sound.
 (* Any history of load_git / check operations with benign fault placements leaves the repository as it was. *)
 Theorem C20_history_restored :
   forall tree breaking ops s,
-  wf s = true -> no_prunable s = true -> forallb (op_ok s) ops = true ->
+  wf s = true -> forallb (op_ok s) ops = true ->
   fold_left (run_op tree breaking) ops s = s.
 Proof. exact history_restored. Qed.
 Print Assumptions C20_history_restored.
@@ -86,7 +86,7 @@ Print Assumptions C20_history_restored.
 (* The repaired defect: without --force a file written into the checkout leaves residue; with it the same run restores. *)
 Theorem C20_without_force_refuted :
   exists s p ref tree evs,
-    wf s = true /\ fresh p s = true /\ no_prunable s = true /\ benign true s ref no_faults = true /\
+    wf s = true /\ fresh p s = true /\ benign true s ref no_faults = true /\
     fst (load_git false true no_faults p ref tree evs s) <> s /\
     fst (load_git true true no_faults p ref tree evs s) = s.
 Proof. exact without_force_refuted. Qed.
@@ -95,28 +95,21 @@ Print Assumptions C20_without_force_refuted.
 (* F2 *)
 Theorem C20_state_restored_refuted_add_after :
   exists s p ref tree evs F,
-    wf s = true /\ fresh p s = true /\ no_prunable s = true /\ f_add F = FailAfter /\
+    wf s = true /\ fresh p s = true /\ f_add F = FailAfter /\
     fst (load_git true true F p ref tree evs s) <> s /\
     snd (load_git true true F p ref tree evs s) = Raised "RuntimeError".
 Proof. exact add_after_refuted. Qed.
 Print Assumptions C20_state_restored_refuted_add_after.
 
-(* F3 *)
-Theorem C20_state_restored_refuted_prune_foreign :
-  exists s p ref tree evs,
-    wf s = true /\ fresh p s = true /\ benign true s ref no_faults = true /\ no_prunable s = false /\
-    fst (load_git true true no_faults p ref tree evs s) <> s /\
-    snd (load_git true true no_faults p ref tree evs s) = Returned 0.
-Proof. exact prune_foreign_refuted. Qed.
-Print Assumptions C20_state_restored_refuted_prune_foreign.
-
 Theorem C20_cleanup_fault_unrestorable :
   exists s p ref tree evs F,
-    wf s = true /\ fresh p s = true /\ no_prunable s = true /\ f_branchD F = FailBefore /\
+    wf s = true /\ fresh p s = true /\ f_branchD F = FailBefore /\
     fst (load_git true true F p ref tree evs s) <> s.
 Proof. exact cleanup_fault_refuted. Qed.
 Print Assumptions C20_cleanup_fault_unrestorable.
 
+(* Why dropping `git worktree prune` (repair of F3) loses nothing: in every state the finally block can be in, prune
+   changes nothing when the user's repository has no prunable registration — its only effect ever was on those. *)
 Theorem C20_prune_is_noop_in_cleanup :
   forall s p b c a, fresh p s = true -> no_prunable s = true -> wt_prune (conc s p b c a) = conc s p b c a.
 Proof. exact prune_is_noop_in_cleanup. Qed.
@@ -128,29 +121,21 @@ Theorem C20_normalize_no_separator :
 Proof. exact normalize_no_separator. Qed.
 Print Assumptions C20_normalize_no_separator.
 
-(* Breakage._location *)
+(* Breakage._location: the worktree prefix <tmp root>/griffe-worktree-*/<checkout name> is stripped, whatever the name. *)
 Theorem C20_location_prefix_stripped :
-  forall root suffix normref rel,
+  forall root suffix dirname rel,
   Forall (fun x => String.prefix wt_prefix x = false) root ->
-  normref <> "" ->
-  location true (checkout_parts root (wt_prefix ++ suffix) normref ++ rel) = rel.
+  location true (checkout_parts root (wt_prefix ++ suffix) dirname ++ rel) = rel.
 Proof. exact location_prefix_stripped. Qed.
 Print Assumptions C20_location_prefix_stripped.
 
-(* F4 *)
-Theorem C20_location_refuted_empty_normref :
-  exists ref root suffix rel,
-    Forall (fun x => String.prefix wt_prefix x = false) root /\
-    location true (checkout_parts root (wt_prefix ++ suffix) (normalize ref) ++ rel) <> rel.
-Proof. exact location_refuted_empty_normref. Qed.
-Print Assumptions C20_location_refuted_empty_normref.
-
-Theorem C20_location_empty_normref :
-  forall root suffix x rel,
-  Forall (fun x => String.prefix wt_prefix x = false) root ->
-  location true (checkout_parts root (wt_prefix ++ suffix) "" ++ x :: rel) = rel.
-Proof. exact location_empty_normref. Qed.
-Print Assumptions C20_location_empty_normref.
+(* The checkout name (`_normalize(ref) or "ref"`, repair of F4) is never empty and is a single path component, so the
+   checkout really is <tmp dir>/<name> as checkout_parts says. *)
+Theorem C20_checkout_name_safe :
+  forall ref, checkout_name ref <> "" /\
+    all_chars (fun c => c <> "/"%char /\ c <> "."%char /\ c <> " "%char /\ c <> "\"%char) (checkout_name ref).
+Proof. exact checkout_name_safe. Qed.
+Print Assumptions C20_checkout_name_safe.
 
 (* Returned objects: their lines come from the lines collection filled while the checkout existed. *)
 Theorem C20_objects_self_contained :
